@@ -158,5 +158,19 @@ def main(tier, seed):
                 if not quick and i < len(cps):
                     plist.append(dict(fmt=fmt, entry='parse', template=cps[:i] + [None] + cps[i + 1:]))
         R.run_query(Query('trunc/%s' % fmt, 'c04', 'path', plist, '%d formatter-produced samples (nesting <= 6), cut at every position + one arbitrary char%s' % (len(strs), '' if quick else '; every single char replaced by an arbitrary char')), confirm, key_of)
+    # deep nesting (the property's bound is 64 levels): every bracket kind nested 64 deep, unterminated / closed, + 1 arbitrary char
+    it0 = R.engine.new_interp()
+    for fmt in FORMATS:
+        kw = keyword_table(it0, get_format(it0, fmt))
+        opens = [(kw['compound.brackets_set_extension'][0], kw['compound.brackets_set_extension'][1]), (kw['compound.brackets_set_intension'][0], kw['compound.brackets_set_intension'][1]),
+                 (kw['compound.brackets'][0] + kw['compound.connecter_product'] + kw['compound.separator'], kw['compound.brackets'][1]),
+                 (kw['statement.brackets'][0], ' ' + kw['statement.copula_inheritance'] + ' b' + kw['statement.brackets'][1])]
+        plist = []
+        for o, c in opens:
+            for depth in ((64,) if quick else (16, 64)):
+                body = [ord(x) for x in o * depth + 'a']
+                plist.append(dict(fmt=fmt, entry='parse', template=body + [None], step_limit=600000))
+                plist.append(dict(fmt=fmt, entry='parse', template=body + [ord(x) for x in c * depth] + [None], step_limit=600000))
+        R.run_query(Query('deep/' + fmt, 'c04', 'path', plist, 'each bracket kind nested 64 deep (open only / closed) + one arbitrary char'), confirm, key_of)
     return R.finish(rule='one state = one explored path (equivalence class of inputs under the parser\'s branch decisions); transitions = solver feasibility checks; every path\'s solver witness is re-run through the native crate and must agree',
                     trusted=['rustc nightly MIR dump of /repo', 'mirsym interpreter + std models (validated per path against native)', 'z3'])
